@@ -417,12 +417,23 @@ def run_impl(tree, fmts, v):
             r = readback(s)
             table.append([key[0], key[1], f2bits(r)])
             if f2bits(x + 0.0) == f2bits(x):            # the law is stated for canonical floats
-                y = ldt(ast.literal_eval(s))
-                if ldt.fmtstr % y != s:
-                    # the law is a precondition of the text clauses which the Lean side decides from the table (`fmtlaw`);
-                    # here it is only cross-checked: known to fail for negative values printing as '-0.0' under %.nf and for
-                    # scaled leaves whose grid is finer than the double spacing
-                    libfail.append('fmt law: %r %% %r = %r reads back as %r which prints %r' % (ldt.fmtstr, x, s, y, ldt.fmtstr % y))
+                # TextLib.Lawful.fmtDouble / fmtScaled as stated in Spec/C02.lean: library and float arithmetic only.
+                # It is a precondition of the text clauses which the Lean side decides from the table (`fmtlaw`); here it is
+                # cross-checked with the real '%' and literal_eval: known to fail for negative values printing as '-0.0'
+                # under %.nf and for scaled leaves whose grid is finer than the double spacing
+                w = ast.literal_eval(s)
+                if isinstance(w, bool) or not isinstance(w, (int, float)) or w != w:
+                    libfail.append('fmt law: %r %% %r = %r is not a number literal' % (ldt.fmtstr, x, s))
+                else:
+                    r = w + 0.0
+                    if leaf['t'] == 'double':
+                        y = sorted([-gen.FMAX, r, gen.FMAX])[1]
+                        ok = ldt.fmtstr % y == s
+                    else:
+                        y = float(int(round(r / ldt.scale)) * ldt.scale)
+                        ok = math.isfinite(y) and ldt.fmtstr % y == s and float(int(round(y / ldt.scale)) * ldt.scale) == y
+                    if not ok:
+                        libfail.append('fmt law: %r %% %r = %r reads back as %r -> %r which prints %r' % (ldt.fmtstr, x, s, r, y, ldt.fmtstr % y))
                 if x + 0.0 != x or not (x <= x) or x * 3.0 != 3.0 * x:
                     libfail.append('float law on %r' % x)
         except Exception as e:
@@ -501,7 +512,12 @@ def extra_valid(rng, tree):
     if t == 'double':
         lo, hi = gen._f(tree['min']), gen._f(tree['max'])
         out += [x for x in (1e300, -1e300, 1e-300, 123456789.0, 0.1, 1 / 3, 2.0 ** 53 + 2, 5e-324, 1e16, 1e22, 1e23, 0.30000000000000004,
-                            -0.0, 1e-5, 99999.95, 999999.5, gen.FMAX, -gen.FMAX) if lo <= x <= hi]
+                            -0.0, 1e-5, 99999.95, 999999.5, gen.FMAX, -gen.FMAX,
+                            # small negative values: '%.1f' % -0.04 is '-0.0', which reads back as 0.0 and prints '0.0' (the
+                            # instances where the assumed format law fails; counted, see `precondition.fmt-law-fails`)
+                            -0.04, -0.4, -1e-5, -4e-13,
+                            # a format with few digits rounds these up to the next power of ten / beyond the float range
+                            9.5, 99.5, 0.95, 9.9999e15, 1.7976931348623157e308, 1.75e308) if lo <= x <= hi]
     elif t == 'scaled':
         kb = gen.grid_bounds(tree)
         if kb and kb[0] <= kb[1]:
@@ -770,8 +786,9 @@ def run(ctx):
             if ans.get('cvalid') is not None:
                 # hypothesis of client_cache_string_write: the cached value lies in the value set of the rebuilt type
                 res.count('client-value-valid-for-rebuilt-type=%s' % ans['cvalid'])
-            if not ans['fmtlaw']:
-                # a scaled leaf whose text reads back to a neighbouring grid point (grid finer than the double spacing)
+            if ans['canon'] and not ans['fmtlaw']:
+                # the assumed format law fails at a leaf of this value: a negative value printing as '-0.0' (reads back as
+                # 0.0, prints '0.0'), or a scaled leaf whose text reads back to a neighbouring grid point
                 res.count('precondition.fmt-law-fails(text not judged)')
             if isinstance(impl.get('cdt'), dict) and 'err' in impl['cdt']:
                 res.count('client-datatype-not-rebuilt(client clauses not judged; C03)')
